@@ -79,7 +79,14 @@ where
     {
         let mut sh = shr.borrow_mut();
         sh.is_prover = false;
+        let commit_ops: Vec<&Op> = shape.phase1.iter().filter(|o| matches!(o, Op::Commit | Op::CommitZero | Op::CommitDup)).collect();
         for j in 0..m {
+            // a repeated commitment (`CommitDup`) is the same point as the first one
+            if matches!(commit_ops.get(j), Some(Op::CommitDup)) && j > 0 {
+                let first = sh.verifier_commitments[0];
+                sh.verifier_commitments.push(first);
+                continue;
+            }
             let p = SymA::concrete(C::Group::rand(&mut rng).into_affine());
             p.name_basis(&format!("V{}", j));
             sh.verifier_commitments.push(p);
@@ -94,6 +101,11 @@ where
     arena::set_ctx("post");
     let sh = shr.borrow();
     job.check("builder ran without API errors", sh.errors.is_empty(), format!("{:?}", sh.errors));
+    job.check(
+        "the verifier ran every registered randomized closure exactly once, in registration order",
+        closures_as_registered(shape, &sh.closure_runs),
+        format!("verifier ran {:?}, {} registered", sh.closure_runs, shape.phase2.len()),
+    );
     job.concrete = serde_json::json!({"verify": format!("{:?}", res)});
     let evs = events_in("verify");
     let vchals = split_verifier_chals(&chals_in::<C::ScalarField>("verify"));
